@@ -169,7 +169,7 @@ PROPS = {
     },
     'C15': {
         'level': 'proof',
-        'verus': [{'group': 'shard_zsets', 'units': ['xdel', 'xtrim', 'xrange', 'xrevrange', 'xlen', 'xread_step']}, {'group': 'c16_pel', 'units': ['data_add_with_id', 'stream_trim_by_count', 'stream_trim_by_min_id', 'stream_delete', 'data_range', 'data_range_after', 'stream_range', 'stream_range_after', 'stream_len', 'sid_new', 'sid_min', 'sid_max', 'sid_parse_u64_fast']}, {'group': 'cmd_groups', 'units': ['xrange_args', 'xrevrange_bounds', 'xadd_fields', 'xread_pairs', 'xadd_explicit_id']}],
+        'verus': [{'group': 'shard_zsets', 'units': ['xdel', 'xtrim', 'xrange', 'xrevrange', 'xlen', 'xread_step']}, {'group': 'c16_pel', 'units': ['data_add_with_id', 'stream_trim_by_count', 'stream_trim_by_min_id', 'stream_delete', 'data_range', 'data_range_after', 'stream_range', 'stream_range_after', 'stream_len', 'sid_new', 'sid_min', 'sid_max', 'sid_parse_u64_fast']}, {'group': 'cmd_groups', 'units': ['xrange_args', 'xrevrange_bounds', 'xadd_fields', 'xread_pairs', 'xadd_explicit_id', 'xdel_ids']}],
         'kani': STREAM_KANI,
         'explanation': 'ID generation (complete Kani proof over full u64 domains), ID packing/order (complete); StreamData::range (XRANGE / XREVRANGE) and StreamData::range_after (XREAD / XREADGROUP cursor read) proved in Verus against window contracts for all stream contents, bounds and counts; explicit-ID admission (bounded stand-in, not counted)',
     },
